@@ -1,5 +1,6 @@
 import gfapy
 import binascii
+import re
 
 class ByteArray(bytes):
   """Array of unsigned byte values.
@@ -34,8 +35,10 @@ class ByteArray(bytes):
   def __new__(cls, arg):
     try:
       if isinstance(arg, str):
-        if len(arg) == 0:
-          raise gfapy.FormatError
+        if not re.match(r"^[0-9A-F]+$", arg):
+          raise gfapy.FormatError(
+            "{} is not a valid hex string\n".format(repr(arg))+
+            "(it does not match the regular expression [0-9A-F]+)")
         return bytes.__new__(cls, binascii.unhexlify(arg))
       else:
         return bytes.__new__(cls, arg)
